@@ -1385,6 +1385,19 @@ class FlipMVD(ADEVPrimitive):
 flip_mvd = FlipMVD()
 
 
+def _unzipped_dual_kont(kdual):
+    """Dual continuation as a function of one discrete outcome, returning
+    (primal, tangent) of the scalar result - the form the parallel enumeration
+    estimators map over their support."""
+
+    def kont(v):
+        out_dual = kdual(Dual(v, _discrete_zero_tangent(v)))
+        (out_primal,), (out_tangent,) = Dual.tree_unzip(out_dual)
+        return out_primal, out_tangent
+
+    return kont
+
+
 @Pytree.dataclass
 class FlipEnumParallel(ADEVPrimitive):
     def sample(self, *args):
@@ -1407,10 +1420,7 @@ class FlipEnumParallel(ADEVPrimitive):
         (p_primal,) = Dual.tree_primal(dual_tree)
         (p_tangent,) = Dual.tree_tangent(dual_tree)
         support = jnp.array([True, False])
-        ret_primals, ret_tangents = modular_vmap(kdual)(
-            (support,),
-            (_discrete_zero_tangent(support)),
-        )
+        ret_primals, ret_tangents = modular_vmap(_unzipped_dual_kont(kdual))(support)
 
         def _inner(p, ret):
             return jnp.sum(jnp.array([p, 1 - p]) * ret)
@@ -1449,9 +1459,7 @@ class CategoricalEnumParallel(ADEVPrimitive):
         (probs_primal,) = Dual.tree_primal(dual_tree)
         (probs_tangent,) = Dual.tree_tangent(dual_tree)
         idxs = jnp.arange(len(probs_primal))
-        ret_primals, ret_tangents = modular_vmap(kdual)(
-            (idxs,), (_discrete_zero_tangent(idxs),)
-        )
+        ret_primals, ret_tangents = modular_vmap(_unzipped_dual_kont(kdual))(idxs)
 
         def _inner(probs, primals):
             return jnp.sum(jax.nn.softmax(probs) * primals)
